@@ -73,13 +73,14 @@ type LRec struct {
 
 // Shape is the logical shape shared by the records of a world.
 type Shape struct {
-	NFields     int
-	IntIdx      int // index of the field holding digits
-	NItemFields int // 0 = no child items
-	ItemIntIdx  int
-	Charset     Charset
-	MaxVal      int
-	SkipValue   string // a record whose field 0 has this value is rejected by the target filter ("" = no filter)
+	NFields       int
+	IntIdx        int // index of the field holding digits
+	NItemFields   int // 0 = no child items
+	ItemIntIdx    int
+	Charset       Charset
+	MaxVal        int
+	SkipValue     string // a record whose field 0 has this value is rejected by the target filter ("" = no filter)
+	NumericFilter bool   // the target filter is a numeric comparison on field 1 (no record is rejected by value)
 }
 
 // DrawShape draws a record shape.
@@ -229,6 +230,10 @@ func (g *declGen) leaf(fs []string, intField string) D {
 		return g.flags(D{"xpath": pick()})
 	case 1:
 		ty := g.t.Pick("decl.type", "int", "float", "string")
+		if g.t.Chance("decl.numcmp", 1, 4) {
+			// a numeric comparison inside the xpath: evaluated by the xpath engine on the field's text
+			return D{"xpath": intField + "[. >= 0]", "type": ty}
+		}
 		return D{"xpath": intField, "type": ty}
 	case 2:
 		return g.flags(D{"const": g.t.Pick("decl.const", "K", " padded ", "", "42")})
